@@ -47,21 +47,34 @@ PAIRS = [
     ("same:CompleteStage", "AND", 2),
     ("same:StartStage", "N_OF_M", 3),
     ("same:CompleteStage", "DISCRIMINATOR", 2),
+    # join stage whose tasks are built at plan time (zombie re-plan path is reachable)
+    ("start_start", "AND", 2, "vb"),
+    ("start_start", "DISCRIMINATOR", 2, "vb"),
+    ("start_start", "N_OF_M", 3, "vb"),
+    ("same:StartStage", "AND", 2, "vb"),
+    ("complete_start", "N_OF_M", 3, "vb"),
 ]
 
 
-def _join_spec(jt: str, width: int) -> dict:
+def _join_spec(jt: str, width: int, ty: str = "v") -> dict:
     if jt == "AND":
         ups = [f"u{i}" for i in range(width)]
-        return {"name": f"and{width}", "confluent": True, "stages": [specs.st("r")] + [specs.st(u, ["r"]) for u in ups] + [specs.st("j", ups), specs.st("z", ["j"])]}
-    if jt == "DISCRIMINATOR":
-        return specs.first_of(width)
-    return specs.quorum(width, 2)
+        sp = {"name": f"and{width}", "confluent": True, "stages": [specs.st("r")] + [specs.st(u, ["r"]) for u in ups] + [specs.st("j", ups), specs.st("z", ["j"])]}
+    elif jt == "DISCRIMINATOR":
+        sp = specs.first_of(width)
+    else:
+        sp = specs.quorum(width, 2)
+    if ty != "v":
+        for s in sp["stages"]:
+            if s["ref"] == "j":
+                s["type"] = ty
+        sp["name"] += "_" + ty
+    return sp
 
 
 def gen_cases(tier: str, seed: int) -> list[dict]:
     cases = []
-    for pi, (kind, jt, width) in enumerate(PAIRS):
+    for pi, (kind, jt, width, *_ty) in enumerate(PAIRS):
         chunks = 2 if tier == "quick" else 12
         for c in range(chunks):
             cases.append({"kind": "pair", "pair": pi, "chunk": c, "chunks": chunks, "bound": 2, "sample": 150 if tier == "quick" else 3000, "seed": seed})
@@ -202,8 +215,8 @@ def classify(v: list[dict], run) -> list[dict]:
 
 
 def _pair(case: dict) -> dict:
-    kind, jt, width = PAIRS[case["pair"]]
-    spec = _join_spec(jt, width)
+    kind, jt, width, *ty = PAIRS[case["pair"]]
+    spec = _join_spec(jt, width, ty[0] if ty else "v")
     cp = _cut(kind, spec)
     obs: Counter = Counter()
     keys: set = set()
@@ -262,7 +275,7 @@ def _whole(case: dict) -> dict:
     violations = []
     for j in range(case["runs"]):
         jt, width = rng.choice([("AND", 2), ("AND", 3), ("DISCRIMINATOR", 2), ("DISCRIMINATOR", 3), ("N_OF_M", 3)])
-        spec = _join_spec(jt, width)
+        spec = _join_spec(jt, width, rng.choice(["v", "vb"]))
         s = rng.randrange(1 << 30)
         pol = il.RandomPolicy(s, rng.choice([0.15, 0.3, 0.5])) if j % 2 else il.PCT(s, rng.randint(2, 5), 400)
         run, info = il.run_workers(spec, 3, pol)
